@@ -84,6 +84,9 @@ package searcher
 //@   requires s != nil && poolApart(ctx, s) && conjInv(s) && s.scorer != nil && !s.done && len(s.searchers) > 0 && implies(!s.initialized, !s.lbset)
 //@   modifies s.lbset, s.lb, fields(ConjunctionSearcher), s.currs[*], fields(search.DocumentMatch), search.DocumentMatch.cowner, search.DocumentMatchPool.avail, mem(*search.DocumentMatch), search.Searcher.started, search.Searcher.last, search.Searcher.done
 //@   at call searcher.Next#0 after: ghost result0.cowner = recv
+// (stepping stone for the loop invariant: whatever all children match beyond the returned id lies at
+// or after the bumped child's new position)
+//@   at call searcher.Next#0 after: assert implies(result1 == nil, all(x, string, implies(mset(recv, x) && x > dmKey(rv), result0 != nil && x >= dmKey(result0))))
 //@   at return: ghost s.started = s.started || (result1 == nil && result0 != nil)
 //@   at return: ghost s.last = ite(result1 == nil && result0 != nil, dmKey(result0), s.last)
 //@   at return: ghost s.done = s.done || (result1 == nil && result0 == nil)
